@@ -49,6 +49,11 @@ def gen_case(rng, cls):
         seqs = gen.family(rng, n, rng.randint(6, 16), alpha, psub=0.2, pindel=0.05)
         if kind == "protein":
             kind, seqs = _ensure_protein(rng, seqs)
+    elif cls == "many_long":
+        # many merges of more than 1024 columns running at the same time in different subtrees
+        kind = "dna"
+        n = rng.randint(12, 28)
+        seqs = gen.family(rng, n, rng.choice([1040, 1150]), gen.DNA, "balanced", 0.08, 0.005, 6)
     elif cls == "long":
         kind = rng.choice(["dna", "protein"])
         alpha = gen.DNA if kind == "dna" else gen.AA
@@ -146,14 +151,14 @@ def check_case(ck, paths_small, paths_big, case, idx):
     recs = case["recs"]
     kind = case["kind"]
     nonempty = [(n, s) for n, s in recs if s]
-    big = case["cls"] in ("many", "long", "huge")
+    big = case["cls"] in ("many", "long", "huge", "many_long")
     paths = paths_big if big else paths_small
     word = rng.choice(kal.ADMISSIBLE[kind])
     gpo, gpe, tgpe = penalties(rng)
     if big:
         # free gap extension on thousands of sequences makes the alignment (and the run time) explode: defaults only for the large classes
         gpo, gpe, tgpe = None, None, None
-    nt = rng.choice([1, 2, 3, 8, 16]) if case["cls"] != "huge" else rng.choice([3, 7, 8, 16])
+    nt = rng.choice([1, 2, 3, 8, 16]) if case["cls"] not in ("huge", "many_long") else rng.choice([3, 7, 8, 16])
     ctxbase = {"case_class": case["cls"], "kind": kind, "type": word, "gpo": gpo, "gpe": gpe, "tgpe": tgpe}
     f = ck.tmp(".fa")
     file_recs = recs
@@ -272,10 +277,10 @@ def run(ck, tier):
     paths = build("asan")
     sc = getattr(ck, "scale", 1.0)
     if tier == "quick":
-        plan = [("huge", 2), ("odd_letters", 10), ("late_gaps", 6), ("near_end", 12), ("outlier", 3), ("bulk", 100), ("boundary_len", 17), ("boundary_n", 6), ("empties", 8), ("ratio", 2), ("many", 1), ("long", 1)]
+        plan = [("huge", 2), ("odd_letters", 10), ("late_gaps", 6), ("near_end", 12), ("outlier", 3), ("many_long", 3), ("bulk", 100), ("boundary_len", 17), ("boundary_n", 6), ("empties", 8), ("ratio", 2), ("many", 1), ("long", 1)]
         big = build("rel")
     else:
-        plan = [("huge", 12), ("odd_letters", 150), ("late_gaps", 80), ("near_end", 200), ("outlier", 40), ("bulk", 1200), ("boundary_len", 170), ("boundary_n", 60), ("empties", 120), ("ratio", 20), ("many", 12), ("long", 12)]
+        plan = [("huge", 12), ("odd_letters", 150), ("late_gaps", 80), ("near_end", 200), ("outlier", 40), ("many_long", 30), ("bulk", 1200), ("boundary_len", 170), ("boundary_n", 60), ("empties", 120), ("ratio", 20), ("many", 12), ("long", 12)]
         big = build("rel")
     cases = []
     for cls, n in plan:
